@@ -75,7 +75,7 @@ def hostile_cfg(r, seed, observer="inotify"):
     cfg.update({"pacing": False, "out_ops": True, "bias": HOSTILE_BIAS, "n_ops": r.randint(10, 40), "final_probes": False, "probe_p": 0.0,
                 "root_probe": True, "delete_root": r.random() < 0.3, "observer": observer, "recursive": r.random() < 0.85})
     if observer == "polling":
-        cfg.update({"mode": "plain", "read_size": None, "full": False})
+        cfg.update({"mode": "plain", "read_size": None, "full": False, "selfloop": r.random() < 0.5})
     return cfg
 
 
